@@ -221,6 +221,10 @@ func runC08(p *Prog, r *Result) {
 	r.Rule("R08c", "sibling agreement Parse / StmtsSeq: same sequence reset, rune, next, statements, doHeredocs under err == nil", 2)
 	r.Rule("R08e", "every newLit() is followed on every path by endLit(), a discard or an error report, so Incomplete() cannot stay true after a completed statement (shared with C10 R10c)", 15)
 	r.Rule("R08i", "no slice is truncated in place after it was handed to a consumer or while a saved alias is read: the statements InteractiveSeq yielded stay what they were (shared with C10 R10f)", 3)
+	r.Rule("R08j", "a function that copies bytes of its own into a caller's slice drops from its buffer what copy() says it copied, not the length of the source (0 instances on the pinned tree, whose reader wrapper passes Read through; armed by a control)", 0)
+	if n := checkCopiedAmountConsumed(p, r, "R08j"); n == 0 {
+		r.Notef("R08j: no function of the module copies into a []byte parameter on this tree")
+	}
 	r.Rule("R08d", "every increment of openNodes/openBquotes/openBquoteDbls is followed by its decrement on every path to the exit", 4)
 
 	parser, printer := resetSpecs()
@@ -822,6 +826,10 @@ func checkCounters(p *Prog, r *Result, pkg *packages.Package) {
 }
 
 var c08Controls = []Control{
+	{Name: "reader-wrapper-hands-over-a-line-and-drops-its-length", Rule: "R08j", WantKey: "readLine#copy 1 into p", File: "syntax/parser.go",
+		Mutate: ctlChain(ctlReplaceAnywhere("\treturn w.rd.Read(p)\n}\n", "\treturn w.readLine(p)\n}\n"),
+			ctlReplaceAnywhere("\tlastLine    int64\n", "\tpending     []byte\n\tbuf         [bufSize]byte\n\tlastLine    int64\n"),
+			ctlAppendDecl("func (w *wrappedReader) readLine(p []byte) (int, error) {\n\tif len(w.pending) == 0 {\n\t\tn, err := w.rd.Read(w.buf[:])\n\t\tw.pending = w.buf[:n]\n\t\tif n == 0 {\n\t\t\treturn 0, err\n\t\t}\n\t}\n\tline := w.pending\n\tfor i, b := range line {\n\t\tif b == '\\n' {\n\t\t\tline = line[:i+1]\n\t\t\tbreak\n\t\t}\n\t}\n\tw.pending = w.pending[len(line):]\n\treturn copy(p, line), nil\n}\n"))},
 	{Name: "newline-after-the-last-stop-word-consumed", Rule: "R08h", WantKey: "doHeredocs#nothing is read once the last body is stored", File: "syntax/parser.go",
 		Mutate: ctlReplaceAnywhere("\t\tp.hdocStops = p.hdocStops[:len(p.hdocStops)-1]\n\t}\n\tp.quote = old\n", "\t\tp.hdocStops = p.hdocStops[:len(p.hdocStops)-1]\n\t\tif p.r == '\\n' {\n\t\t\tp.rune()\n\t\t}\n\t}\n\tp.quote = old\n")},
 	{Name: "start-of-input-told-by-the-last-token-position", Rule: "R08a", WantKey: "Parser.pos", File: "syntax/lexer.go",
